@@ -114,14 +114,16 @@ TEXTS = {
          "pairwise distinct, follow the documented rules, and each resolves (attribute, row attribute, item-assignment key, replacement) to "
          "its own position; dir() and the repr dot row list exactly them; string indexing finds the first occurrence; the map is fresh "
          "whenever it is consulted; " + CORR + " (class-exhaustive sanitiser strings, all duplication patterns up to width 4, planted "
-         "rename-then-use histories, zero-row tables)",
-         TRUST.format("") + "str.lower() and the regex character classes are validated over the BMP (thorough tier).",
-         "Rocq proof over a character-class model of the sanitiser and a history model of the accessor-map cache; differential correspondence"),
+         "rename-then-use histories, zero-row tables)"
+         + TR.format("naming._sanitize_user_name: which rules, in which order - EqSanitize.v, 6 theorems incl. the sanitiser theorems restated "
+                     "for the generated function"),
+         TRUST.format(" and the translator") + "str.lower() and the regex character classes are validated over the BMP (thorough tier).",
+         "Rocq proof over a character-class model of the sanitiser (regenerated from naming.py and re-proved) and a history model of the accessor-map cache; differential correspondence"),
  "C18": ("theorems: arithmetic and comparisons give unnamed vectors; copy/slice/mask/index/sort/setitem/promotion keep the name; table-scalar "
          "keeps names, table-table keeps a left name iff the right is absent or equal; construction, >>, selections, sorts, joins keep "
          "stored names in order; aggregate/window names follow <sanitised column>_<function> made unique by least numeric suffixes; the "
          "name of any composed expression is computed compositionally; " + CORR
-         + TR.format("_resolve_binary_name, the uniquify helpers and name builders of aggregate/window - EqNames.v + EqAggNames.v, 13 theorems"),
+         + TR.format("_resolve_binary_name, the uniquify helpers and name builders of aggregate/window, the sanitiser - EqNames.v + EqAggNames.v + EqSanitize.v, 19 theorems"),
          TRUST.format(" and the translator"), "Rocq proof over an expression language of names; naming kernels regenerated from source; random expression trees"),
  "C19": ("theorems (all record lists): one column per header cell named verbatim, one row per record, cell (i, j) = conversion of the "
          "record's cell or None when the record is short, excess cells ignored, dtypes by inference, empty inputs give empty tables "
